@@ -17,7 +17,7 @@ def contract_target(c: Contract, bounded=None, replay=None, name=None):
     def run(eng, opts):
         eng.contracts[c.target] = c
         verify(eng, c, timeout_ms=opts.get("timeout_ms"), both=opts.get("both", False))
-    return Target(name or c.target.replace("aioesphomeapi.", ""), "contract", run, functions=[c.target], bounded=bounded, replay=replay)
+    return Target(name or (c.target.replace("aioesphomeapi.", "") + (f"[{c.label}]" if c.label else "")), "contract", run, functions=[c.target], bounded=bounded, replay=replay)
 
 
 def register_lemmas(eng, modname, contracts):
